@@ -802,3 +802,11 @@ for _p, _m, _ths in (('C04', 'FluentVerif.Tie.ClientProps', ['FV.Tie.C04_Send_re
     PROPS[_p]['theorems'] = PROPS[_p]['theorems'] + _ths
     PROPS[_p]['explanation'] = PROPS[_p]['explanation'] + (" The property theorem is also restated over the regenerated body itself (" + ', '.join(t.split('.')[-1] for t in _ths) +
         "): the statement is about running what the translator read from the source on this run, with the model function eliminated by the T_is_model equalities.")
+
+# ---- ws.connection: every statement of every method compared with the text the closers / reader models were written against (Tie/WsConn.lean)
+for _p in ('C15', 'C16'):
+    PROPS[_p]['lean_modules'] = PROPS[_p]['lean_modules'] + ['FluentVerif.Tie.WsConn']
+    PROPS[_p]['theorems'] = PROPS[_p]['theorems'] + ['FV.Tie.wsConn_bodies_pinned']
+    PROPS[_p]['explanation'] = PROPS[_p]['explanation'] + (" The sequential content of ws/connection.go between the lock operations (which frame is written, which state bit is set, "
+        "how the close deadline is computed) is pinned as text: wsConn_bodies_pinned compares every statement of every method, as re-read on this run, with the text the "
+        "interleaving models were written against (no meaning attached: any textual change is reported until the file is brought up to date).")
